@@ -238,6 +238,14 @@ class HybridGibbs:
             if not isinstance(sampler, NUTS): # Again, special case for NUTS.
                 sampler.set_state(sampler_state)
                 sampler.set_history(sampler_history)
+                # Evaluations cached in the state belong to the previous conditional target:
+                # re-evaluate them for the new target at the current point
+                if 'current_target_logd' in sampler_state['state']:
+                    sampler.current_target_logd = sampler.target.logd(sampler.current_point)
+                if 'current_target_grad' in sampler_state['state']:
+                    sampler.current_target_grad = sampler.target.gradient(sampler.current_point)
+                if 'current_likelihood_logd' in sampler_state['state']:
+                    sampler.current_likelihood_logd = sampler.target.likelihood.logd(sampler.current_point)
 
             # Run pre_warmup and pre_sample methods for sampler
             # TODO. Some samplers (NUTS) seem to require to run _pre_warmup before _pre_sample
